@@ -3,6 +3,7 @@ import Lemmas.EvenOddOutside
 import Lemmas.EvenOddPerm
 import Lemmas.EvenOddMargin
 import Lemmas.EvenOddDyadic
+import Lemmas.EvenOddEmpty
 /-! # C05 — polygon Boolean operations compute the pointwise Boolean combination of regions
 
 **Level: translation validation with a proved validator.**  The clipper of `/repo/xmath/geom/poly` (a ~1900-line
@@ -19,12 +20,22 @@ with the usual crossing test (`EOQ.crosses`, `EOQ.inside`):
   of the three polygons (the parity argument: a closed contour crosses a horizontal line evenly often), so the law
   holds there too;
 * `validateLattice_empty` — "empty when the combined region is empty" is part of the verdict;
+* `emptyCert_sound`, `validateGeneral_sound`, `resultEmpty_no_region` — "empty when the combined region is empty" for
+  sampled calls: `EO.emptyCert` is an exact certificate that the combined region is empty at EVERY point (an operand
+  without edges; identical operands for Sub/Xor; operands separated by a vertical or horizontal line for Intersect; B a
+  literal axis-parallel rectangle around all vertices of A for Sub); when it holds the validator `EO.validateGeneral`
+  (what the driver runs on a sampled call) accepts only an empty result.  "Empty polygon" is `Polygon.Empty()`: no
+  contour has a vertex (`EO.resultEmpty`); such a polygon contains no point.  (On every certified call of the runs so
+  far the real code returned no contour at all — evidence key `certified_empty_results_that_had_contours` = 0.)
+  Calls whose region is empty for a reason the certificate does not recognise are judged on sample points only;
 * `validatePoints_sound`, `clear_not_on_edge` — a `true` verdict on a sampled call is the law at every listed sample
   point that keeps the margin, and such points do not lie on any edge (sampling: nothing follows for other points);
 * `inside_int_iff_rat`, `inside_scale`, `inside_translate` — the executable division-free integer test is the ℚ-level rule, and scaling all
   numbers of a call to a common denominator (or shifting them by a common offset) does not change it;
-* `scaled_exact`, `toInt_exact` — the integers the driver hands to the validators are the exact values of the decoded
-  dyadics (times the common power of two); `EO.decodeBits` is the IEEE-754 value formula itself (examples below);
+* `decodeBits_exact`, `decodeBits_none_iff`, `scaled_exact`, `toInt_exact` — exactness of the float decoding: for
+  EVERY bit pattern of a finite float `EO.decodeBits` returns a dyadic whose value is the IEEE-754 value
+  `(-1)^s · m · 2^e` (`EOQ.ieeeValue`), only infinities/NaN are rejected, and the integers the driver hands to the
+  validators are those values times the common power of two;
 * `xor_concat`, `xor_concat_rat`, `inside_rotate`, `inside_reverse` (and `_rat` versions) — properties of the
   specification itself: `Xor` is concatenation of contour lists; start vertex and direction of a contour are
   irrelevant.
@@ -185,6 +196,56 @@ theorem scaled_exact (d : EO.Dy) (emin : Int) (h : emin ≤ d.e) :
 /-- exactness of the lattice coordinates used for lattice calls -/
 theorem toInt_exact (d : EO.Dy) (n : Int) (h : d.toInt? = some n) : (n : ℚ) = dyVal d :=
   toInt?_val d n h
+
+/-- exactness of the float decoding, for every bit pattern of a finite float of any binary format -/
+theorem decodeBits_exact (eb mb bits : Nat) (d : EO.Dy) (h : EO.decodeBits eb mb bits = some d) :
+    dyVal d = ieeeValue eb mb bits :=
+  EOQ.decodeBits_exact eb mb bits d h
+
+/-- only the patterns with all exponent bits set (infinities, NaN) are rejected -/
+theorem decodeBits_none_iff (eb mb bits : Nat) :
+    EO.decodeBits eb mb bits = none ↔ bits / 2 ^ mb % 2 ^ eb = 2 ^ eb - 1 :=
+  EOQ.decodeBits_none_iff eb mb bits
+
+/-- **soundness of the emptiness certificate**: if `EO.emptyCert op A B` holds, the Boolean combination is false at
+    every rational point — the combined region is empty -/
+theorem emptyCert_sound (op : EO.Op) (A B : EO.Polygon) (h : EO.emptyCert op A B = true) (p : QPt) :
+    ¬ holds op (inside (polyQ A) p) (inside (polyQ B) p) :=
+  EOQ.emptyCert_sound op A B h p
+
+/-- an empty polygon in the sense of `Polygon.Empty` (no contour has a vertex) contains no point -/
+theorem resultEmpty_no_region (R : EO.Polygon) (h : EO.resultEmpty R = true) (p : QPt) : ¬ inside (polyQ R) p := by
+  apply noEdges_not_inside
+  unfold EO.noEdges EO.allEdges
+  unfold EO.resultEmpty at h
+  rw [List.all_eq_true] at h
+  rw [List.isEmpty_iff, List.flatMap_eq_nil_iff]
+  intro c hc
+  have := h c hc
+  rw [List.isEmpty_iff] at this
+  rw [this]; rfl
+
+/-- **the validator of a sampled call** (`EO.validateGeneral`, what the driver runs): the law at every listed sample
+    point that keeps the margin, and — whenever the region is certified empty — an empty result, which then satisfies
+    the law at EVERY point -/
+theorem validateGeneral_sound (m : Int) (A B R : EO.Polygon) (op : EO.Op) (pts : List EO.Pt)
+    (h : EO.validateGeneral m A B R op pts = true) :
+    (∀ p ∈ pts, EO.clearAll m A B R p = true →
+      (inside (polyQ R) (toQ p) ↔ holds op (inside (polyQ A) (toQ p)) (inside (polyQ B) (toQ p)))) ∧
+    (EO.emptyCert op A B = true → EO.resultEmpty R = true ∧
+      ∀ p : QPt, (inside (polyQ R) p ↔ holds op (inside (polyQ A) p) (inside (polyQ B) p))) := by
+  unfold EO.validateGeneral at h
+  rw [Bool.and_eq_true] at h
+  refine ⟨fun p hp hc => validatePoints_sound m A B R op pts h.1 p hp hc, ?_⟩
+  intro hcert
+  have he := h.2
+  unfold EO.validateEmpty at he
+  rw [hcert] at he
+  simp only [Bool.not_true, Bool.false_or] at he
+  refine ⟨he, fun p => ?_⟩
+  constructor
+  · intro hR; exact absurd hR (resultEmpty_no_region R he p)
+  · intro hop; exact absurd hop (emptyCert_sound op A B hcert p)
 
 /-! IEEE decoding on concrete patterns: 1.5 (float64), 0.1f (float32), -0.0, the smallest float32 denormal, +Inf -/
 example : EO.decodeBits 11 52 0x3FF8000000000000 = some ⟨3 * 2 ^ 51, -52⟩ := by decide
